@@ -68,6 +68,11 @@ class CollectSuite(Suite):
                 a, b = rng.sample(known, 2)
                 k = rng.choice([1, 2, 2, 3])
                 lv = ["1/1024", "1/512", "1/100", "1/10", "1/2", "9/10"]
+                if rng.random() < 0.4:
+                    # best PEPs that are neighbouring doubles: "better best PEP" is a comparison of the PEPs themselves (their -log10
+                    # values coincide)
+                    x = rng.choice([0.01, 1e-5, 1e-300, 0.3])
+                    lv = [str(Fraction(x)), str(Fraction(float(np.nextafter(x, 0)))), str(Fraction(float(np.nextafter(x, 1))))]
                 es = rng.sample(gens.PEPTIDES, 2 * k + 1)
                 pil = [[e, gens.norm(rng.choice(lv)), [a]] for e in es[:k]] + [[e, gens.norm(rng.choice(lv)), [b]] for e in es[k:2 * k]]
                 pil.append([es[2 * k], gens.norm(rng.choice(lv)), rng.sample([a, b], 2)])
